@@ -204,6 +204,12 @@ func (p *parser) expr() Expr {
 		if v.kind != "id" {
 			p.fail("expected variable after quantifier")
 		}
+		if p.isOp(":") {
+			// unbounded: forall x: body
+			p.next()
+			body := p.expr()
+			return &EQuant{Forall: fa, Var: v.text, Body: body}
+		}
 		if !p.isID("in") {
 			p.fail("expected 'in' after quantified variable")
 		}
@@ -429,6 +435,7 @@ type FuncSpec struct {
 	File      string
 	Uses      []string // lemmas assumed (as quantified facts) while verifying this function
 	Applies   []Clause // lemma instances assumed at function entry
+	ExitApplies []Clause // lemma instances assumed at the (merged) return point
 }
 
 type SpecFn struct {
@@ -479,7 +486,7 @@ func newContractSet() *ContractSet {
 var clauseKeywords = map[string]bool{
 	"requires": true, "ensures": true, "modifies": true, "loop": true, "invariant": true,
 	"decreases": true, "func": true, "extern": true, "spec": true, "lemma": true, "pure": true,
-	"inline": true, "panics": true, "trusted": true, "induction": true, "use": true, "def": true, "call": true, "apply": true, "apply_head": true, "opaque": true, "residual": true,
+	"inline": true, "panics": true, "trusted": true, "induction": true, "use": true, "def": true, "call": true, "apply": true, "apply_head": true, "apply_exit": true, "opaque": true, "residual": true,
 }
 
 // parseContractText parses the body of one or more /*@ ... @*/ blocks (already
@@ -618,7 +625,17 @@ func (cs *ContractSet) parseContractText(text, pkgPath, file string) error {
 				return fmt.Errorf("%s: call clause needs F(args)", file)
 			}
 			curLem.Calls = append(curLem.Calls, LemmaCall{Result: strings.TrimSpace(rest[:i]), Fn: call.Fn, Args: call.Args, Src: rest})
-		case "apply", "apply_head":
+		case "apply", "apply_head", "apply_exit":
+			// "lemma(args) [when cond]"
+			var whenE Expr
+			if i := strings.LastIndex(rest, " when "); i >= 0 {
+				we, err := parseExpr(strings.TrimSpace(rest[i+6:]))
+				if err != nil {
+					return fmt.Errorf("%s: apply ... when: %v", file, err)
+				}
+				whenE = we
+				rest = strings.TrimSpace(rest[:i])
+			}
 			e, err := parseExpr(rest)
 			if err != nil {
 				return fmt.Errorf("%s: apply: %v", file, err)
@@ -626,13 +643,20 @@ func (cs *ContractSet) parseContractText(text, pkgPath, file string) error {
 			if _, ok := e.(*ECall); !ok {
 				return fmt.Errorf("%s: apply needs lemma(args)", file)
 			}
+			if whenE != nil {
+				e = &ECond{C: whenE, A: e, B: nil}
+			}
 			switch {
 			case curLem != nil:
 				curLem.Applies = append(curLem.Applies, Clause{Src: rest, E: e})
+			case curF != nil && kw == "apply_exit":
+				curF.ExitApplies = append(curF.ExitApplies, Clause{Src: rest, E: e})
 			case curL != nil && kw == "apply_head":
 				curL.HeadApplies = append(curL.HeadApplies, Clause{Src: rest, E: e})
 			case curL != nil:
 				curL.Applies = append(curL.Applies, Clause{Src: rest, E: e})
+			case curF != nil && kw == "apply_exit":
+				curF.ExitApplies = append(curF.ExitApplies, Clause{Src: rest, E: e})
 			case curF != nil:
 				curF.Applies = append(curF.Applies, Clause{Src: rest, E: e})
 			default:
